@@ -314,7 +314,7 @@ def fill_outcomes(rep, model):
     filled = dict((m, dict(fs)) for m, fs in _json.loads(subprocess.run([b, "filled"], stdout=subprocess.PIPE, text=True, timeout=60).stdout))
     ops, scs = [], []
     for op in sorted(model.ops):
-        members = [(n, i) for n, i in model.members(model.output_shape(op)) if i["loc"] == "header"]
+        members = [(n, i) for n, i in model.members(model.output_shape(op)) if i["loc"] in ("header", "prefix_headers")]
         if not members or snake(op) not in filled:
             continue
         try:
@@ -337,6 +337,13 @@ def fill_outcomes(rep, model):
             if not f:
                 continue
             kind = fs[f[0]]
+            if kind == "metadata":
+                checked += 1
+                pre = (i["wire"] or "x-amz-meta-").lower()
+                got = {k[len(pre):]: v for k, v in hs.items() if k.startswith(pre)}
+                if got != {"color": ["blue"], "shape": ["round"]}:
+                    dev.setdefault(op, []).append((name, pre + "*", {"color": "blue", "shape": "round"}, got))
+                continue
             if kind == "timestamp":
                 want = TS_TEXT[i["timestamp_format"] or "http-date"]
             elif kind == "string":
